@@ -16,6 +16,7 @@ import Rare.Proofs.C15StatOpen
 import Rare.Proofs.C15Replace
 import Rare.Proofs.C15CatchUp
 import Rare.Model.C15Wiring
+import Rare.Model.C15Switch
 import Rare.Gen.C15
 /-!
 # C15 — follow mode delivers every appended byte exactly once, in order
@@ -74,6 +75,28 @@ theorem skeleton_matches_source :
     Gen.C15.pollReadSkeleton = Expected.pollReadSkeleton ∧
     Gen.C15.pollReadConds = Expected.pollReadConds := by
   refine ⟨rfl, rfl, rfl, rfl, rfl, rfl, rfl, rfl⟩
+
+/-- **dispatch_matches_source.**  The watcher's `switch` regenerated from /repo AS DATA
+    (`Gen.C15.watcherSignals`: Op bit, `s.ReOpen` requirement, signals with their `if s.ReOpen` guards) does,
+    for every configuration and state, exactly what the transition system's `dispatch1` does – for Write,
+    Remove, Create (write signal, plus the delete signal with re-open: the repair of the atomic replace), for a
+    Rename of the followed name (`renameEv`: delete signal with re-open, nothing without) and for an event kind
+    without a case (Chmod: nothing). -/
+theorem dispatch_matches_source (cfg : NCfg) (s : NSt β) :
+    dispatch1 cfg s .write = applySignals cfg s (switchSignals Gen.C15.watcherSignals cfg.reopen opWrite) ∧
+    dispatch1 cfg s .remove = applySignals cfg s (switchSignals Gen.C15.watcherSignals cfg.reopen opRemove) ∧
+    dispatch1 cfg s .create = applySignals cfg s (switchSignals Gen.C15.watcherSignals cfg.reopen opCreate) ∧
+    dispatch1 cfg s (renameEv cfg) = applySignals cfg s (switchSignals Gen.C15.watcherSignals cfg.reopen opRename) ∧
+    dispatch1 cfg s .other = applySignals cfg s (switchSignals Gen.C15.watcherSignals cfg.reopen opChmod) := by
+  cases hre : cfg.reopen <;>
+    simp [switchSignals, applySignals, Gen.C15.watcherSignals, dispatch1, renameEv, hre,
+      opWrite, opRemove, opCreate, opRename, opChmod, List.find?]
+
+/-- Non-vacuity / what the table says: with re-open a Create raises both signals, without only the write signal. -/
+example : switchSignals Gen.C15.watcherSignals true opCreate = [0, 1] ∧
+    switchSignals Gen.C15.watcherSignals false opCreate = [0] ∧
+    switchSignals Gen.C15.watcherSignals true opRename = [1] ∧
+    switchSignals Gen.C15.watcherSignals false opRename = [] := by decide
 
 /-! ## no loss, no duplication, in order -/
 
